@@ -541,6 +541,12 @@ def o_opt_as_ref(ev, st, t, site):
         return False
     if v[1] == "None":
         return _set_dest(st, t, NONE)
+    if raw is not None and re.search(r"as_mut$|as_deref_mut$|as_pin_mut$", norm(site.name)):
+        # `opt.as_mut()`: a reference *into* the option - stores through it change the payload in place
+        if raw[0] == "refmut":
+            return _set_dest(st, t, some(("pref", raw[1], (0,))))
+        if raw[0] == "pref":
+            return _set_dest(st, t, some(("pref", raw[1], tuple(raw[2]) + (0,))))
     return _set_dest(st, t, some(("refval", dict(v[2]).get(0))))
 
 
